@@ -62,7 +62,8 @@ def step (st : St) : List String → St × String
     match st.acct, t.toInt? with
     | some a, some t =>
       let r := a.computeClawback wireM t
-      ({ acct := some r.1 }, s!"clawed={showAmt r.2} {showAccount r.1}")
+      let a' := normAccount r.1
+      ({ acct := some a' }, s!"clawed={showAmt r.2} {showAccount a'}")
     | _, _ => (st, "bad-op")
   -- ---- message level (stateless: the pre-state is part of the op line) ----
   | ["mreset"] => (st, "ok")
